@@ -127,6 +127,15 @@ func (k *puChk) check(s string, base, bits int) bool {
 			c.Add("pu_base0_prefix_0_octal", 1)
 		}
 	}
+	if len(s) > 0 && (s[0] == '+' || s[0] == '-') {
+		c.Add("pu_sign_prefixed", 1)
+		if len(s) > 1 && s[1] >= '0' && s[1] <= '9' {
+			c.Add("pu_sign_then_digit", 1)
+		}
+	}
+	if len(s) == 0 {
+		c.Add("pu_empty_inputs", 1)
+	}
 	if strings.IndexByte(s, '_') >= 0 {
 		switch {
 		case base == 0 && werr == nil:
